@@ -19,6 +19,8 @@ corr    Corr/C19.v: check_param (Model/DrawParams.v: whole tree after the sequen
         ids), evaluated with vm_compute on the same cases
 tables  coq/Gen/Tables_C19.v regenerated from draw_params.py by props/c19_gen.py before the proofs are built"""
 import dataclasses
+import glob
+import os
 import random
 import traceback
 import warnings
@@ -33,13 +35,12 @@ import matplotlib.text as mtext  # noqa: E402
 import numpy as np  # noqa: E402
 
 from vlib import scen  # noqa: E402
-from vlib.core import qz, qb, qstr, qlist, sha  # noqa: E402
+from vlib.core import CASES, qz, qb, qstr, qlist  # noqa: E402
 from vlib.flow import load_corpus  # noqa: E402
 from props import c19_gen  # noqa: E402
 
 from commonroad.geometry.shape import Circle, Polygon, Rectangle, ShapeGroup  # noqa: E402
 from commonroad.prediction.prediction import SetBasedPrediction, TrajectoryPrediction  # noqa: E402
-from commonroad.scenario.lanelet import LaneletNetwork  # noqa: E402
 from commonroad.scenario.obstacle import (DynamicObstacle, EnvironmentObstacle, PhantomObstacle,  # noqa: E402
                                           StaticObstacle)
 from commonroad.scenario.scenario import Scenario, ScenarioID  # noqa: E402
@@ -204,9 +205,15 @@ def rand_op(rng, table, sane, allow_node, id_pools=None):
     cand = sorted(names)
     if not allow_node:
         cand = [k for k in cand if not any(t.startswith("node:") for _, t in names[k])]
+    own = dict(decl()[table[path]]) if path in table else {}
     for _ in range(20):
         name = rng.choice(cand)
         q, tag = rng.choice(names[name])
+        if name in own:
+            # the declared type is the one of the group the assignment is made on (DESIGN 2.7) ...
+            q, tag = path, own[name]
+        elif tag.startswith("node:") and len({t for _, t in names[name]}) > 1:
+            continue  # ... and a group-valued name that nested groups declare with different classes has none
         if tag == "dict":
             continue
         if tag.startswith("node:"):
@@ -721,6 +728,10 @@ def corr(ctx, pterms, pcases, sterms, scases):
     for i in bad2[:3]:
         ok, out = ctx.coq_eval(f"explain_{i}", IMPORTS, f"Eval vm_compute in (explain_sel {sterms[i]}).")
         scases[i] = dict(scases[i], model_predicts=out[-600:] if ok else "?", coq_case=sterms[i][:1500])
+        try:
+            os.remove(os.path.join(CASES, f"{ctx.prop}_explain_{i}.v"))
+        except OSError:
+            pass
     for i in bad2:
         ctx.corr_break("Corr.C19.check_sel: Model/RenderSel.v vs MPRenderer (obstacle_patches / lanelets / planning problems)",
                        scases[i])
@@ -788,6 +799,9 @@ def run(ctx):
         do(gen_render_case(ctx.rng))
     ctx.coverage["draw_render_completed"] = stats["total_ok"]
     corr(ctx, pterms, pcases, sterms, scases)
+    if not ctx.corr_breaks:  # generated case files are kept only when there is something to look at
+        for fn in glob.glob(os.path.join(CASES, f"{ctx.prop}_c*.v")):
+            os.remove(fn)
     if (ctx.proof_breaks or ctx.corr_breaks) and not ctx.failures:
         ctx.log(f"proof/correspondence broke ({len(ctx.proof_breaks)}/{len(ctx.corr_breaks)}); widening the search")
         broken = [b["case"] for b in ctx.corr_breaks if isinstance(b.get("case"), dict) and "k" in b["case"]]
